@@ -90,12 +90,12 @@ def validate_part(chk, tier):
     rng = chk.rng
     cases = []
     small = 3
-    for tasks in all_small_graphs(small):
-        if any(len(set(t.deps)) != len(t.deps) for t in tasks):
+    # all digraphs on 3 names + an undefined one with every listing order are ~275 000 projects: a stride through them
+    stride = 700 if tier == "quick" else 35
+    for k, tasks in enumerate(all_small_graphs(small)):
+        if k % stride or any(len(set(t.deps)) != len(t.deps) for t in tasks):
             continue
         cases.append(Case([Task(t.status, t.deps, t.kind, pkg=["", "p0", ""][i % 3] if i < small else "") for i, t in enumerate(tasks)]))
-    # all digraphs on 3 names + an undefined one with every listing order are ~275 000 projects: a stride through them
-    cases = cases[:: max(1, len(cases) // (350 if tier == "quick" else 8000))]
     for _ in range(300 if tier == "quick" else 3000):
         n = rng.randint(2, 8)
         tasks = rand_dag(rng, n, p_edge=rng.choice([0.15, 0.3, 0.5]))
